@@ -24,6 +24,7 @@ type world struct {
 	emit    func(string)
 	left    int
 	allKeys []*signer
+	wide    []*signer // RSA keys inside the limits with an exponent crypto/rsa refuses, able to sign
 }
 
 var rsaSizesQuick = []int{512, 1023, 1024, 1025, 2048, 4096, 4097}
@@ -36,9 +37,13 @@ func bigFrom(s string) *big.Int {
 // exponents: small, the usual one, the stdlib ceiling and just above it,
 // the mailbox.org value 2^32+1, 64 bits, and 65 bits (over the limit).
 var exponents = []*big.Int{
-	big.NewInt(3), big.NewInt(65537), big.NewInt(1<<31 - 1), bigFrom("0x80000001"), bigFrom("0x100000001"),
+	big.NewInt(3), big.NewInt(65537), big.NewInt(1<<31 - 1), bigFrom("0x8000000b"), bigFrom("0x100000001"),
 	bigFrom("0xFFFFFFFFFFFFFFC5"), bigFrom("0x1000000000000000F"), big.NewInt(1), big.NewInt(65536), bigFrom("0x100000000"),
+	bigFrom("0x10000000f"), bigFrom("0x80000001"),
 }
+
+// indices into exponents of the wide (more than 31 bits) ones that stay within the 64-bit limit
+var wideExp = []int{3, 4, 5, 10, 11}
 
 func newWorld(r *vlib.R, tier string, emit func(string), n int) *world {
 	w := &world{r: r, emit: emit, left: n}
@@ -59,6 +64,11 @@ func newWorld(r *vlib.R, tier string, emit func(string), n int) *world {
 		w.small = append(w.small, genRSAMod(r, bits))
 	}
 	w.allKeys = append(append([]*signer{}, w.rsa...), w.others...)
+	for _, s := range w.rsa {
+		if s.d != nil && s.e.BitLen() > 31 && s.mod.bits >= 1024 && s.mod.bits <= 4096 {
+			w.wide = append(w.wide, s)
+		}
+	}
 	return w
 }
 
@@ -752,6 +762,9 @@ func (w *world) genRSAVerify() {
 	r := w.r
 	w.out("rsa new")
 	s := vlib.Pick(r, w.rsa)
+	if len(w.wide) > 0 && r.Chance(1, 3) {
+		s = vlib.Pick(r, w.wide)
+	}
 	alg := vlib.Pick(r, []uint8{5, 7, 8, 10})
 	signed := r.Bytes(1 + r.Intn(60))
 	hashed := refHash(alg, signed)
@@ -1111,10 +1124,12 @@ func (w *world) genVerify() {
 	var s *signer
 	if r.Chance(3, 5) {
 		s = vlib.Pick(r, w.rsa)
-		if r.Chance(1, 2) { // favour keys that can sign, wide exponents included
+		if r.Chance(1, 2) { // favour keys that can sign
 			for t := 0; t < 8 && s.d == nil; t++ {
 				s = vlib.Pick(r, w.rsa)
 			}
+		} else if len(w.wide) > 0 && r.Chance(1, 2) {
+			s = vlib.Pick(r, w.wide)
 		}
 	} else {
 		s = vlib.Pick(r, w.others)
@@ -1171,8 +1186,15 @@ func (w *world) sweeps() {
 	w.out("kt new")
 	for a := 0; a < 256; a++ {
 		pk := vlib.Pick(r, w.allKeys).pub
-		if a == 1 && r.Bool() {
-			pk = b64(r.Bytes(r.Intn(5)))
+		if a == 1 {
+			for n := 0; n <= 4; n++ { // the library indexes below the slice at two octets
+				b := r.Bytes(n)
+				for i := range b {
+					b[i] |= 1
+				}
+				w.out(fmt.Sprintf("kt tag %d 3 1 %s", vlib.Pick(r, flagChoices), hexStr(b64(b))))
+				w.out(fmt.Sprintf("kt tag %d 3 1 %s", vlib.Pick(r, flagChoices), hexStr(wrap(r, b64(b)))))
+			}
 		}
 		w.out(fmt.Sprintf("kt tag %d 3 %d %s", vlib.Pick(r, flagChoices), a, hexStr(pk)))
 	}
